@@ -461,6 +461,11 @@ class Ctx:
 
     def abort(self, msg):
         wall = time.time() - self.t0
+        if self.viol:
+            # a later stage could not be completed, but violations were already observed on the real code: those stand
+            print("NOTE property=%s: a later stage was inconclusive (%s)" % (self.prop, msg.splitlines()[0][:300]))
+            self.extra["inconclusive_stage"] = msg[:2000]
+            return self.finish()
         print("INCONCLUSIVE property=%s: %s" % (self.prop, msg))
         shutil.rmtree(self.scratch, ignore_errors=True)
         return 2
